@@ -319,6 +319,16 @@ func (db *DB) OpenTransaction() (*Transaction, error) {
 			<-db.writeLockC
 			return nil, err
 		}
+	} else if fmem := db.getFrozenMem(); fmem != nil {
+		fmem.decref()
+		// A rotated write buffer is still waiting to be flushed. The
+		// transaction's sequence number goes into the manifest on commit
+		// and must not overtake journal records that are not in a table
+		// yet (recovery would drop them), so wait for that flush.
+		if err := db.compTriggerWait(db.mcompCmdC); err != nil {
+			<-db.writeLockC
+			return nil, err
+		}
 	}
 
 	// Wait compaction when certain threshold reached.
